@@ -621,12 +621,9 @@ def p_remaining_tx_positive(site):
             for i, e in enumerate(p.events):
                 if e['kind'] == 'call' and e['res'] == 'alloc::collections::BinaryHeap::push':
                     ent = e['args'][1]
-                    good = False
-                    for c in reversed(q.conds_before(p, i)):
-                        ex = c['expr']
-                        if ex[0] == 'binop' and ex[1] == 'Gt' and ex[3][0] == 'const' and ex[3][2] == 0:
-                            good = q.cond_truth(c) is True
-                            break
+                    # the transmissions the pushed entry has left *now* (after a possible decrement) were tested > 0
+                    left = q.field_of(ent, 'remaining_tx')
+                    good = any(q.zero_test(c, lambda v: v == left) == 'pos' for c in q.conds_before(p, i))
                     if not good:
                         return False, '%s pushes an entry back without checking remaining_tx > 0' % fn
     w = set(site.eff.writers_of('broadcast::Entry', 'remaining_tx'))
